@@ -69,9 +69,6 @@ fn check_pair(a: &Row, b: &Row) -> Option<(String, String)> {
         if a.info != b.info {
             return Some(("same-identity-different-definition".into(), format!("{} and {} declare the same identity but return different definitions", a.label, b.label)));
         }
-        if format!("{:?}", a.meta) != format!("{:?}", b.meta) {
-            return Some(("equal-but-debug-differs".into(), format!("{} vs {}", a.label, b.label)));
-        }
     }
     None
 }
